@@ -1218,6 +1218,8 @@ class Engine:
         own = '%s::%s' % (self.cur_mod.relpath, last)
         if '.' not in name and own in self.registry:
             return own
+        if '.' not in name and own + '.__init__' in self.registry and last in getattr(self.cur_mod, 'classes', {}):
+            return own + '.__init__'          # ClassName(...) in its own module: the constructor's contract
         if '.' in name:
             modname = name.split('.')[-2]
             for q in self.registry:
